@@ -1468,7 +1468,7 @@ def waitResponseModelRow (sc : List String) : List String :=
   let fid := if im then 1 else 7
   let pre : List Event := if al then [.write 10 true 1] else [.write 10 true 1, .write 20 true 2]
   -- somebody else's frame at the head and this call's deadline has passed: the wait ends like a failed Peek (C06-D32)
-  let dp := flag sc "deadlinePassed"
+  let dp := flag sc "deadlinePassed" && flag sc "hasDeadline"
   let ev : Event := if pf then .peekErr 1 else if im then .take 1 else if al then .lone 1 7 else if dp then .peekErr 1 else .yield 1 7
   match run [⟨fid, 0⟩] pre with
   | none => ["model: no such state"]
